@@ -563,7 +563,7 @@ func TestC19CLI(t *testing.T) {
 // TestC19Large: directories with thousands of entries (beyond any listing batch or fixed buffer): mostly good files with bad
 // entries of every kind sprinkled in, names of different lengths so that lexicographic order is not numeric order.
 func TestC19Large(t *testing.T) {
-	for _, n := range []int{3000, 9000} {
+	for _, n := range []int{3001, 9001} {
 		n := n
 		t.Run(fmt.Sprint(n), func(outer *testing.T) {
 			fail := ""
